@@ -16,6 +16,7 @@ CONSTANTS
   SPECIAL_A = FALSE
   Sample = 12
   WithDetail <- NoDetail
+  BlameLabel <- AnyBlame
 INVARIANTS NoViol Resolves
 CONSTRAINT Export
 VIEW View
